@@ -570,10 +570,10 @@ class Mutations:
                 opt_config
                 for opt_config in optimizer_configs
                 if mutate_attr == opt_config.lr
-            ][0]
-            self.reinit_opt(
-                individual, optimizer=to_reinit
-            )  # Reinitialise optimizer if new learning rate
+            ]
+            # Reinitialise every optimizer that uses the new learning rate
+            for opt_config in to_reinit:
+                self.reinit_opt(individual, optimizer=opt_config)
 
         individual.mut = mutate_attr
 
